@@ -102,6 +102,7 @@ func readableIn(out []byte, text string) bool {
 func genC03(c *Ctx) {
 	c.Rep.Rule = "directed sweep: ten lifecycle phases (plaintext, exchange started, encrypted via query / via whitespace tag, peer ended, peer ended + new exchange in flight, peer ended + re-keyed, locally ended, refresh in flight, refreshed) x actions (Send of ordinary and of protocol-looking texts, injected plaintext and error messages, End, peer disconnect) x policy sets; plus random lifecycle histories; every step compared with the abstract machine; oracle: every wire output of a call made while the caller is encrypted, finished, or plaintext under require-encryption is searched (raw and inside base64) for every text ever given to that party's Send; finished / require-encryption Send emit no data message at all"
 	phaseSweep(c, func(s *Sys, pols []int) { c03Oracle(c, s); c.AddScenario(s, pols) })
+	randFailRefresh(c, func(s *Sys) { c03Oracle(c, s) })
 	n := 20
 	steps := 40
 	if c.Thorough() {
@@ -117,8 +118,50 @@ func genC03(c *Ctx) {
 	}
 }
 
+// randomness failure inside a refresh / renewed key exchange of an established session: whatever the outcome, the
+// conversation either stays encrypted or tells its user (GoneInsecure); texts given to Send afterwards do not travel
+// in the clear as long as the user has been told the conversation is secure
+func randFailRefresh(c *Ctx, each func(s *Sys)) {
+	for _, pol := range []int{polV3, polV2 | polV3} {
+		for who := 1; who <= 2; who++ {
+			for _, finishedFirst := range []bool{false, true} {
+				for k := 1; k <= 9; k++ {
+					pols := []int{pol, pol}
+					s := newSys(pols, c.R.U64())
+					if !s.Handshake(1, 2) {
+						continue
+					}
+					s.Send(who, []byte("before the refresh"))
+					s.Pump(1, 2, 6)
+					if finishedFirst {
+						// the peer ends; we are "finished" and the peer starts a new exchange
+						s.End(3 - who)
+						s.Pump(1, 2, 6)
+					}
+					s.tick(200)
+					s.ps[who].rnd.fail = k
+					if k%2 == 0 {
+						s.Query(who, 3-who)
+					} else {
+						s.Query(3-who, who)
+					}
+					s.Pump(1, 2, 12)
+					s.ps[who].rnd.fail = 0
+					s.Send(who, []byte(fmt.Sprintf("after the failed read %d", k)))
+					s.Pump(1, 2, 6)
+					s.Send(3-who, []byte("and the other way"))
+					s.Pump(1, 2, 6)
+					c.Count("rand-failure-in-refresh")
+					each(s)
+				}
+			}
+		}
+	}
+}
+
 func c03Oracle(c *Ctx, s *Sys) {
 	given := map[int][]string{}
+	told := map[int]bool{} // what the security events (and the user's own End) have told each user
 	for _, call := range s.calls {
 		if strings.HasPrefix(call.human, "Send(") {
 			t := call.human[strings.Index(call.human, "\"")+1 : strings.LastIndex(call.human, "\"")]
@@ -130,7 +173,19 @@ func c03Oracle(c *Ctx, s *Sys) {
 		if call.human == "probe" {
 			continue
 		}
-		due := call.preState != 0 || s.ps[call.who].pol&polRequire != 0
+		toldBefore := told[call.who]
+		for _, e := range call.events {
+			switch e {
+			case 101, 102: // GoneSecure, StillSecure
+				told[call.who] = true
+			case 100: // GoneInsecure
+				told[call.who] = false
+			}
+		}
+		if strings.HasPrefix(call.human, "End(") {
+			told[call.who] = false
+		}
+		due := call.preState != 0 || s.ps[call.who].pol&polRequire != 0 || toldBefore
 		if due {
 			for _, o := range call.outs {
 				for _, t := range given[call.who] {
@@ -157,6 +212,7 @@ func c03Oracle(c *Ctx, s *Sys) {
 func genC18(c *Ctx) {
 	c.Rep.Rule = "directed sweep over ten lifecycle phases x actions x policy sets (see C03) plus random lifecycle histories, compared step by step with the abstract machine; oracles: GoneSecure / GoneInsecure exactly when IsEncrypted flips during a call, StillSecure only inside an encrypted session, Send refuses after the peer's disconnect until End, End always leaves plaintext, every text is received by the peer at most once plain and at most once marked [resent]"
 	phaseSweep(c, func(s *Sys, pols []int) { c18Oracle(c, s); c.AddScenario(s, pols) })
+	randFailRefresh(c, func(s *Sys) { c18Oracle(c, s) })
 	n := 20
 	steps := 45
 	if c.Thorough() {
